@@ -86,8 +86,10 @@ class Order(object):
             return self.of(t.a[0]) if isinstance(t.a[0], tm.T) else "fixed"
         if op in HASHY:
             return "hash"
-        if op in ("lines", "split", "splitn"):
-            return "text"
+        if op == "lines":
+            return "lines"            # the list of lines of the file (their order is layout)
+        if op in ("split", "splitn"):
+            return "text"             # the fields of one line (positional by definition)
         if op in LISTY:
             return self.join(self.of(x) for x in t.a if isinstance(x, tm.T) and x.op != "lam")
         return "fixed"
@@ -701,12 +703,20 @@ def short(loc):
 def h4(ctx, rep, entries, O):
     nsens = 0
     for ename, ev, r, where in entries:
-        if ename == "from_str":
-            continue                      # fields of a text line are positional by definition; the line loop is under H2
+        # (in the parsers the fields of one text line are positional by definition - their lists have class `text`;
+        # the list of *lines* has class `lines` and is checked like any other)
         par = parents_of(r)
         bad = {}
         adm = {}
         for t in tm.subterms(r):
+            if t.op == "call" and isinstance(t.a[0], str) and not t.a[0].startswith("summary:"):
+                # a function without a model applied to a list in line / hash order: nothing is known about how it uses
+                # the order (fail closed)
+                ordered = [x for x in t.a[1:] if isinstance(x, tm.T) and x.op != "lam" and x.op != "prior" and O.of(x) in ("hash", "lines")]
+                if ordered:
+                    nsens += 1
+                    bad.setdefault("unmodelled:%s/%s" % (t.a[0].rsplit("::", 1)[-1], O.of(ordered[0])), t)
+                continue
             if t.op not in SENSITIVE:
                 continue
             lst = None
@@ -741,6 +751,11 @@ def h4(ctx, rep, entries, O):
             if t.op == "index" and len(t.a) > 1 and t.a[1] is tm.ZERO and only_length_use(t, par):
                 adm["first-component-length"] = adm.get("first-component-length", 0) + 1
                 continue
+            if t.op in ("index", "first_val") and (t.op == "first_val" or (len(t.a) > 1 and t.a[1] is tm.ZERO)) \
+                    and all_equal_test(t, par):
+                # `any(x in L: f(x) != f(L[0]))`: true iff the f-values are not all equal, whichever element comes first
+                adm["all-equal-test"] = adm.get("all-equal-test", 0) + 1
+                continue
             if t.op == "fold_last" and isinstance(t.a[1], tm.T) and t.a[1].op == "lam":
                 el = tm.sym("cls:flel")
                 if el not in tm.free_syms(tm.apply_lam(t.a[1], [el])):
@@ -757,6 +772,41 @@ def h4(ctx, rep, entries, O):
             rep.discharged("C10/H4/%s" % ename, "order-carrying lists are only filtered, mapped, summed, tested or sorted",
                            derivation="admitted shapes: %s" % (", ".join("%s x%d" % kv for kv in sorted(adm.items())) or "none"))
     return nsens
+
+
+def _base_list(x):
+    while isinstance(x, tm.T) and x.op in ("collect", "map", "iter", "cloned", "copied"):
+        x = x.a[0]
+    return x
+
+
+def all_equal_test(t, par):
+    """The first element of a list is used only in (in)equality tests against every element of the same list under
+    `any` / `all` - a test that all elements agree, which does not depend on which one is first."""
+    base = _base_list(t.a[0])
+    todo = [t]
+    seen = set()
+    reached = False
+    while todo:
+        x = todo.pop()
+        if x.id in seen:
+            continue
+        seen.add(x.id)
+        ps = par.get(x.id, [])
+        if not ps:
+            return False
+        for p in ps:
+            if p.op in ("any", "all"):
+                if not (isinstance(p.a[0], tm.T) and _base_list(p.a[0]) is base):
+                    return False
+                reached = True
+            elif p.op in ("ite", "eq", "ne", "not", "and", "or", "lam"):
+                if p.op == "ite" and p.a[0] is x:
+                    return False          # used as a condition: not a comparison of values
+                todo.append(p)
+            else:
+                return False
+    return reached
 
 
 def only_length_use(t, par, root=None):
